@@ -777,3 +777,106 @@ def _real_nesting(a: dict):
 
 
 REGISTRY["C10.rewrites_compose_when_nested"].real_replay = _real_nesting
+
+
+# ------------------------------------------------------------------ IDENTIFIER('<name>') denotes the object the name denotes
+IDENT_NAMES = [
+    ("t1", ("DB1", "S1", "T1")),
+    ("T1", ("DB1", "S1", "T1")),
+    ("s2.t1", ("DB1", "S2", "T1")),
+    ("S2.T1", ("DB1", "S2", "T1")),
+    ("db1.s2.t1", ("DB1", "S2", "T1")),
+    ("db2.s1.t1", ("DB2", "S1", "T1")),
+    ("DB2.S1.T1", ("DB2", "S1", "T1")),
+]
+IDENT_STMTS = [
+    ("select a from identifier('{n}')", "source"),
+    ("insert into identifier('{n}') (a) values (1)", "target"),
+    ("delete from identifier('{n}') where a = 3", "target"),
+    ("update identifier('{n}') set a = 2", "target"),
+    ("select a from identifier($tname)", "source"),
+    ("insert into identifier($tname) (a) values (2)", "target"),
+]
+
+
+def _identifier(ni: int, si: int, moved: bool) -> bool:
+    from vf.session import instance, std_engine
+
+    name, want = IDENT_NAMES[ni]
+    tmpl, how = IDENT_STMTS[si]
+    eng = std_engine()
+    eng.add_schema("DB2", "S2")
+    eng.add_table("DB2", "S2", "T1", [("A", "BIGINT")])
+    conn = instance(eng).connect(database="db1", schema="s1")
+    cur = conn.cursor()
+    if "$tname" in tmpl:
+        cur.execute(f"set tname = '{name}'")
+    if moved:
+        # a qualified name keeps denoting the same object when the session moves elsewhere; partly qualified parts follow the session
+        cur.execute("use schema db2.s2")
+        d, s, t = want
+        parts = name.split(".")
+        want = (d if len(parts) == 3 else "DB2", s if len(parts) >= 2 else "S2", t)
+    duck = conn._duck_conn
+    duck.sources, duck.last_target = [], None
+    cur.execute(tmpl.format(n=name))
+    resolved = (duck.sources[0] if duck.sources else None) if how == "source" else duck.last_target
+    return resolved is not None and tuple(resolved[:3]) == want
+
+
+@ob(
+    "C10.identifier_function_denotes_the_named_object",
+    encodes=["fakesnow.transforms.identifier", "fakesnow.cursor.FakeSnowflakeCursor.execute/_transform (order of variable inlining, IDENTIFIER() and name folding)"],
+    bounds="7 names (unqualified, schema-qualified, fully qualified, lower / upper case) x 6 statements (SELECT / INSERT / DELETE / UPDATE with IDENTIFIER('<name>'), SELECT / INSERT "
+    "with IDENTIFIER($variable)) x session on db1.s1 or moved to db2.s2 by USE SCHEMA (same-named tables exist in all four schemas): the object the engine reads or writes "
+    "is the one the name denotes under the session context",
+    timeout=(200, 400),
+    stubs=["K2 vf.duckstub.Engine (records the catalog object each statement resolves to)"],
+)
+def identifier_function(ni: int, si: int, moved: bool) -> bool:
+    """
+    pre: 0 <= ni < len(IDENT_NAMES) and 0 <= si < len(IDENT_STMTS)
+    post: _
+    """
+    return done(fast.native(_identifier, fast.pick(ni, len(IDENT_NAMES)), fast.pick(si, len(IDENT_STMTS)), bool(fast.pick(moved, 2))))
+
+
+def _real_identifier(a: dict):
+    from vf.real import real_cursor
+
+    name, _want = IDENT_NAMES[a["ni"]]
+    tmpl, how = IDENT_STMTS[a["si"]]
+    fs, conn, cur = real_cursor(False)
+    for ddl in ("create schema db1.s2", "create database db2", "create schema db2.s1", "create schema db2.s2"):
+        cur.execute(ddl)
+    marks = {"db1.s1": 11, "db1.s2": 12, "db2.s1": 21, "db2.s2": 22}
+    for k, v in marks.items():
+        cur.execute(f"create table {k}.t1 (a int, m int default {v})")
+        cur.execute(f"insert into {k}.t1 (a, m) values (3, {v})")
+    if "$tname" in tmpl:
+        cur.execute(f"set tname = '{name}'")
+    here = "db1.s1"
+    if a["moved"]:
+        cur.execute("use schema db2.s2")
+        here = "db2.s2"
+    parts = name.lower().split(".")
+    full = ".".join(here.split(".")[: 3 - len(parts)] + parts)
+    key = full.rsplit(".", 1)[0]
+    try:
+        cur.execute(tmpl.format(n=name))
+        if how == "source":
+            got = cur.fetchall()
+            seen = cur.execute(f"select a from {key}.t1").fetchall()
+            return got != seen, f"real stack: {tmpl.format(n=name)!r} from {here} returned {got}, {key}.t1 holds {seen}"
+    except Exception as e:  # noqa: BLE001
+        return True, f"real stack: {type(e).__name__}: {str(e)[:120]}"
+    # a write: exactly the named table changed
+    changed = []
+    for k, v in marks.items():
+        rows = cur.execute(f"select a, m from {k}.t1 order by 1").fetchall()
+        if rows != [(3, v)]:
+            changed.append(k)
+    return changed != [key], f"real stack: {tmpl.format(n=name)!r} from {here} changed tables {changed}, expected [{key!r}]"
+
+
+REGISTRY["C10.identifier_function_denotes_the_named_object"].real_replay = _real_identifier
